@@ -20,14 +20,14 @@ EXTENDS PyCdlibModel, Json, IOUtils, TLCExt
 
 Input == JsonDeserialize(IOEnv.TRACE_FILE)
 
-TNames   == {Input.names[i].id : i \in 1..Len(Input.names)}
-TBlobs   == {Input.blobs[i].id : i \in 1..Len(Input.blobs)}
-TTargets == {Input.targets[i] : i \in 1..Len(Input.targets)}
-TCode    == [n \in TNames |-> LET r == CHOOSE i \in 1..Len(Input.names) : Input.names[i].id = n
-                              IN [iso |-> Input.names[r].iso, rr |-> Input.names[r].rr,
-                                  jol |-> Input.names[r].jol, udf |-> Input.names[r].udf]]
-TBlobLen == [b \in TBlobs |-> LET r == CHOOSE i \in 1..Len(Input.blobs) : Input.blobs[i].id = b
-                              IN Input.blobs[r].len]
+\* realisation tables as literals (module generated per run; literal constants are
+\* evaluated once, definitions over the deserialised input were re-evaluated per use)
+T == INSTANCE TraceTables
+TNames   == T!TabNames
+TBlobs   == T!TabBlobs
+TTargets == T!TabTargets
+TCode    == T!TabCode
+TBlobLen == T!TabBlobLen
 
 Obs    == Input.obs
 Traces == Input.traces
@@ -72,21 +72,23 @@ ObsPartition(o) ==
     IN {{<<x[1], x[2].p>> : x \in {y \in all : y[2].c = c}} : c \in cs}
 
 \* names of the clauses in which projection o differs from model state s
-Mismatch(s, o) ==
-       (IF Shape(s.iso) # Shape(ObsTree(o.iso)) THEN {"Tree_iso"} ELSE {})
-  \cup (IF Shape(s.jol) # Shape(ObsTree(o.jol)) THEN {"Tree_jol"} ELSE {})
-  \cup (IF Shape(s.udf) # Shape(ObsTree(o.udf)) THEN {"Tree_udf"} ELSE {})
-  \cup (IF s.cfg.rr # "" /\ Shape(s.iso) # Shape(ObsTree(o.rrv)) THEN {"Tree_rr"} ELSE {})
+\* (\E over singleton sets binds evaluated values once; LET bodies are re-evaluated per use)
+MismatchOf(s, o, ti, tj, tu, tr) ==
+       (IF Shape(s.iso) # Shape(ti) THEN {"Tree_iso"} ELSE {})
+  \cup (IF Shape(s.jol) # Shape(tj) THEN {"Tree_jol"} ELSE {})
+  \cup (IF Shape(s.udf) # Shape(tu) THEN {"Tree_udf"} ELSE {})
+  \cup (IF s.cfg.rr # "" /\ Shape(s.iso) # Shape(tr) THEN {"Tree_rr"} ELSE {})
   \cup (IF BlobsOf(s, s.iso) # ObsBlobs(o.iso) THEN {"Content_iso"} ELSE {})
   \cup (IF BlobsOf(s, s.jol) # ObsBlobs(o.jol) THEN {"Content_jol"} ELSE {})
   \cup (IF BlobsOf(s, s.udf) # ObsBlobs(o.udf) THEN {"Content_udf"} ELSE {})
   \cup (IF s.cfg.rr # "" /\ BlobsOf(s, s.iso) # ObsBlobs(o.rrv) THEN {"Content_rr"} ELSE {})
   \cup (IF ModelPartition(s) # ObsPartition(o) THEN {"LinkClasses"} ELSE {})
-  \cup (IF Len(o.iso) # Cardinality({e.p : e \in Range(o.iso)})
-           \/ Len(o.jol) # Cardinality({e.p : e \in Range(o.jol)})
-           \/ Len(o.udf) # Cardinality({e.p : e \in Range(o.udf)}) THEN {"UniqueNames"} ELSE {})
+  \cup (IF Len(o.iso) # Cardinality(DOMAIN ti) \/ Len(o.jol) # Cardinality(DOMAIN tj)
+           \/ Len(o.udf) # Cardinality(DOMAIN tu) THEN {"UniqueNames"} ELSE {})
   \cup (IF s.npvd # o.npvd THEN {"NumPvd"} ELSE {})
   \cup (IF o.err # <<>> THEN {"ProjectionError"} ELSE {})
+Mismatch(s, o) ==
+    CHOOSE m \in {MismatchOf(s, o, ObsTree(o.iso), ObsTree(o.jol), ObsTree(o.udf), ObsTree(o.rrv))} : TRUE
 
 Documented == {"InvalidInput", "InvalidISO", "InternalError"}
 
@@ -99,21 +101,20 @@ Emit(kind, e, clauses, why) ==
 
 \* judge: compare what the model demands (want, against state s) with the projection
 Judge(e, kind, s, why) ==
-    LET o == Obs[e.o]
-        m == Mismatch(s, o)
-    IN /\ (m # {} => Emit(kind, e, m, why))
+    \E o \in {Obs[e.o]} : \E m \in {Mismatch(s, o)} :
+       /\ (m # {} => Emit(kind, e, m, why))
        /\ st' = IF m = {} THEN [s EXCEPT !.cfg.level = o.cfg.level] ELSE FromObs(o, s)
 
 \* the harness masters the image and opens it in a fresh object: e.wres, e.ores, view e.o
 MasterStep(e) ==
     IF e.wres # "ok" THEN Emit("master", e, {"WriteFails"}, e.wres) /\ st' = st
     ELSE IF e.ores # "ok" THEN Emit("master", e, {"OpenFails"}, e.ores) /\ st' = st
-    ELSE LET m == Mismatch(st, Obs[e.o]) IN
+    ELSE \E m \in {Mismatch(st, Obs[e.o])} :
          /\ (m # {} => Emit("master", e, m, ""))
          /\ st' = st
 
 ApiStep(e) ==
-    LET r == Step(st, e.a) IN
+    \E r \in {Step(st, e.a)} :
     CASE r.out = "unsupported" ->
            /\ PrintT(<<"SKIP", ToJson([tid |-> Traces[tid].id, step |-> l, act |-> e.a.a])>>)
            /\ st' = st
